@@ -58,6 +58,58 @@ def run(c):
                 if len(pos['samples']) < 3:
                     pos['samples'].append({'config_seed': cs.seed, 'history': h})
     c.coverage['correspondence']['theorem hypothesis PosOK on model runs'] = pos
+    # the global theorem `no_store_outside_the_buffer` (Props/C02.lean): its configuration hypothesis `CfgOK` is "what the
+    # front end guarantees" -- evaluated (executable form `cfgOKb`, proved sound) on every real configuration used
+    # here; on the histories that also meet the platform hypotheses (all buffers of one size, header + context fit)
+    # the theorem says the model does not halt: cross-checked on the model run and on the implementation
+    glob = {'configurations': 0, 'configurations_meeting_CfgOK': 0, 'configurations_not_meeting_CfgOK': [],
+            'histories': 0, 'histories_meeting_all_hypotheses': 0, 'of_those_model_halted': 0,
+            'of_those_implementation_out_of_bounds': 0, 'hypothesis_false': {'HdrFits': 0, 'SameSize': 0, 'Small': 0}}
+    for cs in (cases + cases2):
+        hs = [hrt.gen_history(rnd, cs.ir, cs.dname, cs.openargs, cs.recs, cs.hdr, cs.sizes) for _ in range(10)]
+        # the same histories with every swapped-in buffer of the initial size: the theorem's platform
+        hs2 = []
+        for h in hs:
+            h2 = dict(h)
+            pl = dict(h2.get('plat') or {})
+            if pl.get('setbufs'):
+                pl['setbufs'] = [[n, h2['buf']] for n, _b in pl['setbufs']]
+            h2['plat'] = pl
+            hs2.append(h2)
+        hs = hs + hs2
+        impl = hrt.run_impl(cs.exe, cs.ir, cs.dname, hs)
+        mod = hrt.run_model(cs.ir, cs.dname, hs, hyps2=True)
+        glob['configurations'] += 1
+        cfgok = None
+        for h, a, m in zip(hs, impl, mod):
+            line = [x for x in m if x.startswith('hyp2 ')]
+            if not line:
+                continue
+            kv = dict(t.split('=') for t in line[0].split()[1:])
+            cfgok = kv['CfgOK'] == '1'
+            glob['histories'] += 1
+            for k in ('HdrFits', 'SameSize', 'Small'):
+                if kv[k] != '1':
+                    glob['hypothesis_false'][k] += 1
+            if cfgok and all(kv[k] == '1' for k in ('HdrFits', 'SameSize', 'Small')):
+                glob['histories_meeting_all_hypotheses'] += 1
+                if kv['halted'] == '1':
+                    glob['of_those_model_halted'] += 1
+                if oracle(cs, h, a):
+                    glob['of_those_implementation_out_of_bounds'] += 1
+                    if not c.violations:
+                        c.violation({'property': 'C02', 'kind': 'store outside the buffer on a history that meets every '
+                                     'hypothesis of no_store_outside_the_buffer', 'config_yaml': cs.text, 'history': h,
+                                     'implementation': a[-5:]}, found_input=True)
+        if cfgok:
+            glob['configurations_meeting_CfgOK'] += 1
+        elif cfgok is False and len(glob['configurations_not_meeting_CfgOK']) < 3:
+            glob['configurations_not_meeting_CfgOK'].append(cs.seed)
+    c.coverage['correspondence']['theorem no_store_outside_the_buffer: hypotheses on real configurations'] = glob
+    if glob['of_those_model_halted']:
+        c.violation({'property': 'C02', 'kind': 'the model halted on a history that meets every hypothesis of '
+                     'no_store_outside_the_buffer: the driver and the proved model disagree', 'obligation':
+                     'no_store_outside_the_buffer'}, found_input=False)
     # operation trees (where every write lands relative to `at`) of many more layouts, nothing compiled; a layout
     # that differs from the model is built and run against the guard page
     from checks import lycommon as ly
